@@ -41,6 +41,9 @@ JOBS: Dict[str, Dict[str, Any]] = {
     "fail_odd": {"names": ["oh"], "method": "AM1", "converger": [1], "fails": True},
     "loose": {"names": ["hcn"], "method": "AM1", "converger": [1], "eps": 1e-4},
     "md_h2": {"md": True},
+    # optional pair corrections with per-element tables: same heaviest element, different element sets (anything memoised by the largest atomic number goes stale)
+    "disp_w2": {"names": ["h2o_pair"], "method": "AM1", "converger": [1], "extra": {"dispersion": True}},
+    "disp_ch4_h2o": {"names": ["ch4_h2o"], "method": "AM1", "converger": [1], "extra": {"dispersion": True}},
     # a system with pairs beyond the short-range cut-offs, analytical forces: scratch arrays that are only partly written must not leak old memory
     "far_anal": {"names": ["h2o_far"], "method": "AM1", "converger": [1], "analytical": [True]},
     "far_num": {"names": ["h2o_far"], "method": "PM3", "converger": [1], "analytical": [True, "numerical"]},
@@ -69,7 +72,7 @@ def _run_job(j: Dict[str, Any], shared: Dict[str, Any] = None):
         mdh.in_process_run(sc, tag="c15")
         return None
     sp = esh.settings(method=j["method"], eps=j.get("eps", 1e-9), converger=j["converger"], sp2=j.get("sp2"), uhf=j.get("uhf", False), excited=j.get("excited"),
-                      analytical=j.get("analytical"))
+                      analytical=j.get("analytical"), **(j.get("extra") or {}))
     if j.get("learned"):
         # re-parameterised element: tabulated value of one parameter scaled, passed as a learned parameter (fresh objects for every job)
         import contextlib as _cl
@@ -317,8 +320,9 @@ def probe_md_driver_reuse(inp: Dict[str, Any]) -> Dict[str, Any]:
             sp = md2.seqm_parameters if hasattr(md2, "seqm_parameters") else dict(method="AM1", scf_eps=1e-9, scf_converger=[1], sp2=[False])
             mB1 = Molecule(Constants(), dict(molB.seqm_parameters), xB.clone(), molB.species.clone())
             mB2 = Molecule(Constants(), dict(molB.seqm_parameters), xB.clone(), molB.species.clone())
-            md.run(mB1, inp["steps"], seed=9)
-            md2.run(mB2, inp["steps"], seed=9)
+            rk = dict(inp.get("run_kwargs2") or {})       # options of the SECOND run only (velocity / energy control): nothing of the first run may leak into them
+            md.run(mB1, inp["steps"], seed=9, **rk)
+            md2.run(mB2, inp["steps"], seed=9, **rk)
         for k_, m_ in (("reused", mB1), ("fresh", mB2)):
             out[k_] = (m_.coordinates.detach().numpy().copy(), m_.velocities.detach().numpy().copy(), m_.Etot.detach().numpy().copy())
         return out
@@ -348,6 +352,7 @@ def gen_cases(ctx: Ctx):
         prefix = [str(v) for v in rng.choice(names, size=k)]
         cases.append(("history", {"job": job, "prefix": prefix}))
     cases.append(("history", {"job": "w_am1", "prefix": ["loose", "fail_odd", "w_pm3_pulay", "md_h2"]}))
+    cases.append(("history", {"job": "disp_ch4_h2o", "prefix": ["disp_w2"]}))
     cases.append(("history", {"job": COLLIDE[0][1], "prefix": [COLLIDE[0][0]]}))
     cases.append(("history", {"job": COLLIDE[0][0], "prefix": [COLLIDE[0][1]]}))
     for i, (a, b) in enumerate(COLLIDE[1:] if ctx.thorough else COLLIDE[1:3]):
@@ -367,6 +372,9 @@ def gen_cases(ctx: Ctx):
     for i, (e, other) in enumerate(plan):
         j = (ctx.seed + i) % 2
         cases.append(("md_driver_reuse", {"engine": e, "mols": [["h2o"], ["h2o", "ch4"]][j], "mols2": [["h2s"], ["h2s", "sih4"]][j] if other else None, "steps": 6, "k": [4, 6][j], "seed": int(rng.integers(0, 10**6))}))
+    # second run of a re-used driver with run options of its own (energy-shift control compares with the energy at ITS start)
+    cases.append(("md_driver_reuse", {"engine": ["basic", "langevin"][ctx.seed % 2], "mols": ["h2o"], "mols2": [None, ["ch4"]][ctx.seed % 2], "steps": 5, "seed": int(rng.integers(0, 10**6)),
+                                      "run_kwargs2": [{"control_energy_shift": True}, {"scale_vel": (2, 250.0)}][(ctx.seed // 2) % 2]}))
     cases.append(("threads", {"job": "batch_mndo", "threads": [2, 7, 16] if ctx.thorough else [4, 16]}))
     cases.append(("dict_reuse", {"a": "w_am1", "b": "w_am1"}))
     cases.append(("dict_reuse", {"a": "cis_ch2o", "b": "cis_ch2o"}))
